@@ -10,5 +10,5 @@ rsync -a --exclude .git /repo/ "$d/"
 (cd "$d" && patch -p1 -s < "$patch") || { echo "patch failed"; exit 2; }
 export GOFLAGS=-mod=mod GOPROXY=off GOSUMDB=off GOTOOLCHAIN=local
 (cd "$d" && go build -trimpath ./... ) || { echo "MUTANT DOES NOT COMPILE"; exit 3; }
-/verif/bin/govc check -repo "$d" -prop "$prop" -verif /verif -no-evidence -scratch "$d/.scratch" "$@" | sed "s#$d#<scratch>#g"
+${GOVC:-/verif/bin/govc} check -repo "$d" -prop "$prop" -verif /verif -no-evidence -scratch "$d/.scratch" "$@" | sed "s#$d#<scratch>#g"
 exit ${PIPESTATUS[0]}
